@@ -698,13 +698,27 @@ func doParse(c *codecCase, isResp bool) Ev {
 			fl, tid, blen, known := respFields(r.v)
 			e["fields"], e["tid"], e["blen"], e["typeOK"] = fl, tid, blen, known
 			if known {
-				e["reenc"] = ints(r.v.(packet.Response).Bytes())
+				func() {
+					defer func() {
+						if p := recover(); p != nil {
+							e["outcome"] = "panic" // re-encoding the parsed value panicked
+						}
+					}()
+					e["reenc"] = ints(r.v.(packet.Response).Bytes())
+				}()
 			}
 		} else {
 			fl, tid, known := reqFields(r.v)
 			e["fields"], e["tid"], e["typeOK"] = fl, tid, known
 			if known {
-				e["reenc"] = ints(r.v.(interface{ Bytes() []byte }).Bytes())
+				func() {
+					defer func() {
+						if p := recover(); p != nil {
+							e["outcome"] = "panic"
+						}
+					}()
+					e["reenc"] = ints(r.v.(interface{ Bytes() []byte }).Bytes())
+				}()
 			}
 		}
 	}
